@@ -47,6 +47,11 @@ THEOREMS = [
     'PbBss.C03.vmf_em_rank',
     'PbBss.C03.vmf_em_rank_neg',
     'PbBss.C03.vmf_em_mstep_valid',
+    'PbBss.C03.vmf_first_mstep_hard',
+    'PbBss.C03.vmf_round_hard',
+    'PbBss.C03.vmf_round_hard_uniform',
+    'PbBss.C03.fixed_point_vmf_balanced',
+    'PbBss.C03.fixed_point_vmf_balanced_hard',
 ]
 ASSUMPTIONS = [
     'the theorems cover the RANKING MECHANISMS of the E-step (sign of the Watson / vMF concentration, reciprocal cACG '
@@ -63,9 +68,11 @@ ASSUMPTIONS = [
     'fixed_point_chain_partial carries mass dominance of every E-step and an explicit weight/concentration margin for every '
     'iterate as hypotheses (they can fail for extreme class-size imbalance under blur, where the literal property fails in '
     'real arithmetic too); the blurred start is covered only through these hypotheses, the hard start unconditionally',
-    'no theorem for the complex Bingham model, nor for the M-steps of vMFMM, the full-covariance GMM and the two integration '
-    'models (no Em model; their E-step ranking is covered by vmf_rank / gauss_full_rank / gcacg_rank_scene / '
-    'vmfcacg_rank_scene); guards carried as hypotheses: tiny > 0, quadratic-form floor inactive (tiny <= 1), denominator '
+    'vMFMM: first M-step and one round from the hard true partition for any class masses, n-step fixed point by induction for '
+    'the balanced scene (fixed_point_vmf_balanced; uses only lo <= kappa <= hi, so it does not depend on the value of '
+    'Banerjee\'s formula at mean resultant length exactly 1, where x/0 is 0 over R and +inf in IEEE arithmetic); '
+    'no theorem for the complex Bingham model, nor fixed-point theorems for the full-covariance GMM and the two integration '
+    'models (their E-step ranking is covered by gauss_full_rank / gcacg_rank_scene / vmfcacg_rank_scene); guards carried as hypotheses: tiny > 0, quadratic-form floor inactive (tiny <= 1), denominator '
     'clamps inactive (tiny <= class mass, tiny <= 1/K), 0 < eigenvalue floor < 1',
     'correspondence on C03\'s own domain (separable scenes, blurred true start, code iterate i -> model step -> code iterate '
     'i+1, arg-max of the model E-step = arg-max of the code): cWMM, cACGMM, spherical / diagonal GMM; on this domain every '
@@ -263,6 +270,9 @@ def corr(ctx):
             ctx.corr(f'driver[{family}]', False, 'driver answered bad-op')
             continue
         g = c02._groups(out)
+        if c02.singular_full_covariance(family, m):
+            ctx.count(f'corr-not-compared:numerically-singular-full-covariance[{family}]')
+            continue
         if guard is None:
             # log-likelihood, E-step, weights, M-step of the family: exactly C02's step-wise comparison
             c02._compare(ctx, c, m, m_next, out)
